@@ -77,6 +77,49 @@ class Feed:
             yield {"a": v, "b": 0} if self.records else v
 
 
+class MemoryGuard:
+    """an endless group that is not instrumented (sequence($), $.repeat()) can only be stopped by the address space: an
+    implementation that materialises it builds the tuple inside one C call, which no alarm interrupts.  While such a case
+    is evaluated the process may grow by 1.5 GB at most; the MemoryError is then an (unexpected) observation."""
+
+    def __enter__(self):
+        import resource
+        self.res = resource
+        self.old = resource.getrlimit(resource.RLIMIT_AS)
+        try:
+            now = int(open("/proc/self/statm").read().split()[0]) * resource.getpagesize()
+            cap = now + (3 << 29)
+            if self.old[1] != resource.RLIM_INFINITY:
+                cap = min(cap, self.old[1])
+            resource.setrlimit(resource.RLIMIT_AS, (cap, self.old[1]))
+        except Exception:       # pragma: no cover - no /proc: unguarded
+            self.old = None
+
+    def __exit__(self, *a):
+        if self.old is not None:
+            self.res.setrlimit(self.res.RLIMIT_AS, self.old)
+        return False
+
+
+class NoGuard:
+    def __enter__(self):
+        pass
+
+    def __exit__(self, *a):
+        return False
+
+
+class Both:
+    """the instrumented source and the instrumented group iterator of a selectMany: pulls of the two together"""
+
+    def __init__(self, main, grp):
+        self.main, self.grp = main, grp
+
+    @property
+    def pulls(self):
+        return self.main.pulls + self.grp.pulls
+
+
 # how the source reaches the query: (root expression, iterator or re-iterable, where it is put, input conversion)
 MODES = {
     "data-iter": ("$", "iter", "data", True),            # one-shot iterator as $ (default conversion)
@@ -94,38 +137,102 @@ MODES = {
 MODE_NAMES = sorted(MODES)
 
 
+# a pipeline may be written in SPLIT form: a prefix of the chain is bound by a binding form and the chain continues
+# through the variable.  The delivery mode then reads "<mode>|<form>@<position>,<form>@<position>,..."; a binding
+# form hands a lazy value on untouched, so values, pulls and lambda applications are those of the unsplit chain.
+SPLIT_FORMS = ("let", "letp", "with", "def", "lam", "letkw2", "lamv")
+DELEGATE_FORMS = ("lam", "lamv")        # lambda(..)(..) and $fn(..) need a context and an engine with delegates enabled
+
+
+def split_mode(mode):
+    """-> (delivery mode, ((form, position), ...))"""
+    base, _, sp = mode.partition("|")
+    splits = []
+    for part in filter(None, sp.split(",")):
+        f, _, j = part.partition("@")
+        splits.append((f, int(j)))
+    return base, tuple(sorted(splits, key=lambda x: x[1]))
+
+
+def join_mode(base, splits):
+    return base if not splits else base + "|" + ",".join("%s@%d" % s for s in splits)
+
+
+def gen_splits(rng, nstages, terminal):
+    top = nstages - (1 if terminal else 0)
+    n = rng.choice([1, 1, 1, 2, 2, 3])
+    return tuple(sorted(((rng.choice(SPLIT_FORMS), rng.randrange(0, top + 1)) for _ in range(n)), key=lambda x: x[1]))
+
+
 def fix_mode(stages, mode):
     """assert / defaultIfEmpty look at the first element and hand the collection on: a RE-ITERABLE object that reaches
     them unconverted is legitimately traversed from the start a second time, so these two are fed one-shot iterators"""
-    if any(s[0] in ("assertAny", "defaultIfEmpty") for s in stages) and mode in ("var-feed", "fn-feed", "raw-feed", "rawdoc-feed"):
-        return mode.replace("rawdoc-feed", "doc-iter").replace("-feed", "-iter")
-    return mode
+    base, splits = split_mode(mode)
+    if any(s[0] in ("assertAny", "defaultIfEmpty") for s in stages) and base in ("var-feed", "fn-feed", "raw-feed", "rawdoc-feed"):
+        base = base.replace("rawdoc-feed", "doc-iter").replace("-feed", "-iter")
+    return join_mode(base, splits)
 
 
 def text_of(stages, k, mode="data-iter", conv="camel"):
-    t = sc.pipeline_text(MODES[mode][0], stages, probe=True)
-    return sc.conv_text(t if k is None else "%s.take(%d)" % (t, k), conv)
+    base, splits = split_mode(mode)
+    pr = sc.Probe(True)
+    top = len(stages) - (1 if k is None and stages else 0)          # a final search stays attached to its receiver
+    cuts = [(f, min(j, top)) for f, j in splits]
+    segs, expr, pos = [], MODES[base][0], 0                          # segs: (form, bound expression)
+    for n, (f, j) in enumerate(cuts):
+        for sg in stages[pos:j]:
+            expr = sc.stage_apply_text(expr, sg, pr)
+        pos = j
+        segs.append((f, expr, n + 1))
+        expr = {"let": "$v%d" % (n + 1), "letkw2": "$v%d" % (n + 1), "letp": "$1", "with": "$1", "def": "$", "lam": "$", "lamv": "$"}[f]
+    for sg in stages[pos:]:
+        expr = sc.stage_apply_text(expr, sg, pr)
+    t = expr if k is None else "%s.take(%d)" % (expr, k)
+    for f, bound, n in reversed(segs):
+        if f == "let":
+            t = "let(v%d => %s) -> (%s)" % (n, bound, t)
+        elif f == "letkw2":        # several bindings in one form, the lazy one among them
+            t = "let(w%d => %d, v%d => %s) -> (%s)" % (n, n, n, bound, t)
+        elif f == "letp":
+            t = "let(%s) -> (%s)" % (bound, t)
+        elif f == "with":
+            t = "with(%s) -> (%s)" % (bound, t)
+        elif f == "def":       # a def'd name goes through the context's naming convention like a decorator-given one
+            t = "def(f%d, %s) -> %s%d(%s)" % (n, t, "F" if sc.base_conv(conv) == "custom" else "f", n, bound)
+        elif f == "lam":       # the lazy value as the argument of an anonymous function
+            t = "lambda(%s)(%s)" % (t, bound)
+        else:                  # ... of one held in a variable
+            t = "let(fn%d => lambda(%s)) -> $fn%d(%s)" % (n, t, n, bound)
+    return sc.conv_text(t, conv)
 
 
 def _run_once(k0, stages, k, mode, timeout, conv="camel"):
-    root, shape, where, convert = MODES[mode]
+    root, shape, where, convert = MODES[split_mode(mode)[0]]
     recs = bool(stages) and stages[0][0] == "attr"      # member projection: the source yields records {a: n, b: 0}
     src = (Source if shape == "iter" else Feed)(k0, recs)
     sc.TICKS.clear()
     text = text_of(stages, k, mode, conv)
-    ctx = sc.context(conv).create_child_context()
+    delegates = any(f in DELEGATE_FORMS for f, _ in split_mode(mode)[1])
+    ctx = sc.context(conv + sc.DLG if delegates else conv).create_child_context()
+    hosts = [s[1][1] for s in stages if s[0] == "selectManyG" and s[1][0].startswith("host")]
+    if hosts:              # the lazy group of a selectMany: a SECOND instrumented host iterator, its pulls counted too
+        src = Both(src, Source(hosts[0]))
+        ctx["grp"] = src.grp
     data = None
     if where == "data":
-        data = src
+        data = getattr(src, "main", src)
     elif where == "doc":
-        data = {"src": src, "other": [1, 2]}
+        data = {"src": getattr(src, "main", src), "other": [1, 2]}
     elif where == "var":
-        ctx["feed"] = src
+        ctx["feed"] = getattr(src, "main", src)
     else:
-        ctx.register_function(lambda: src, name="feed")
+        main = getattr(src, "main", src)
+        ctx.register_function(lambda: main, name="feed")
     # engines with a generous yaql.memoryQuota must consume exactly what engines without one do: sizing is pull-free
     quota = (k0 + len(text)) % 2 == 0
-    o = sc.evaluate(text, data, timeout=timeout, ctx=ctx, eng=sc.engine_opts(quota=quota, noconv=not convert))
+    free = any(s[0] == "selectManyG" and s[1] in (("seq",), ("repeat", None)) for s in stages)
+    with (MemoryGuard() if free else NoGuard()):
+        o = sc.evaluate(text, data, timeout=timeout, ctx=ctx, eng=sc.engine_opts(quota=quota, noconv=not convert, delegates=delegates))
     return o, src, text
 
 
@@ -141,7 +248,7 @@ def observe(k0, stages, k, mode="data-iter", conv=None):
         if o[0] == "err" and o[1] == "EOther" and o[2].startswith("watchdog"):
             sc.WATCHDOG_HITS[0] += 1
     ticks = dict(sc.TICKS)
-    if o[0] == "err" and ("PullCap" in o[2] or "watchdog" in o[2]):
+    if (o[0] == "err" and ("PullCap" in o[2] or "watchdog" in o[2])) or src.pulls > CAP:
         return ("cap",), src.pulls, sum(ticks.values()), ticks, text
     return o, src.pulls, sum(ticks.values()), ticks, text
 
@@ -191,8 +298,49 @@ def delivery_grid(run):
              ([("memorize",), ("accumulate", ("add2",), sc.NOSEED)], 3), ([], 2)]
     out = []
     for mode in MODE_NAMES:
-        for stages, k in pipes:
+        for n, (stages, k) in enumerate(pipes):
             out.append((0, list(stages), k, mode))
+            # ... and with the chain split by every binding form: at the source itself and after the first operator
+            f = SPLIT_FORMS[(n + len(out)) % len(SPLIT_FORMS)]
+            out.append((0, list(stages), k, join_mode(mode, ((f, 0),))))
+            if len(stages) > 1 or (stages and k is not None):
+                out.append((0, list(stages), k, join_mode(mode, ((SPLIT_FORMS[(n + 1) % len(SPLIT_FORMS)], 1),))))
+    return out
+
+
+# operators that hand on every element they receive (after an endless uninstrumented group nothing else is generated:
+# a filter that never matches would spin without touching the instrumented source, which no pull cap can stop)
+PASS_THROUGH = ("select", "enumerate", "skip", "take", "slice", "insert", "insertMany", "memorize", "accumulate", "zip",
+                "selectMany", "append", "concat", "plus", "replace", "replaceMany")
+
+
+def gen_group(rng):
+    r = rng.randrange(8)
+    if r == 0:
+        return ("seq",)
+    if r == 1:
+        return ("range",)
+    if r == 2:
+        return ("repeat", rng.choice([None, 0, 1, 2, 3]))
+    if r in (3, 4):
+        return ("host", rng.randrange(-3, 20))
+    if r in (5, 6):
+        return ("hostmap", rng.randrange(-3, 20), rng.choice([("mul", 2), ("add", 1), ("add", -3), ("mod", 3), ("id",)]))
+    return ("hostfilter", rng.randrange(-3, 20), rng.choice([("modeq", 2, 0), ("modeq", 3, 1), ("gt", 4), ("lt", 50)]))
+
+
+def lazy_grid():
+    """selectMany with LAZY groups, alone and followed by operators that take a prefix of the flattened stream"""
+    out = []
+    groups = [("seq",), ("range",), ("repeat", None), ("repeat", 2), ("repeat", 0), ("host", 10), ("host", -2),
+              ("hostmap", 10, ("mul", 2)), ("hostfilter", 5, ("modeq", 2, 0)), ("hostfilter", 0, ("gt", 3))]
+    for g in groups:
+        for k in (0, 1, 3, 5):
+            out.append((3, [("selectManyG", g)], k))
+            out.append((1, [("where", ("modeq", 2, 1)), ("selectManyG", g), ("select", ("add", 1))], k))
+        out.append((2, [("selectManyG", g), ("skip", 2), ("takeWhile", ("lt", 30))], 2))
+        out.append((2, [("selectManyG", g), ("first", sc.NOSEED)], None))
+        out.append((4, [("selectManyG", g), ("indexWhere", ("gt", 2))], None))
     return out
 
 
@@ -201,11 +349,20 @@ def gen_case(rng):
     stages, kind, shape, n = [], "iter", "int", 6
     if rng.random() < 0.1:
         stages.append(("attr",))
+    lazy = rng.random() < 0.15          # one selectMany whose selector returns a LAZY group
+    free = False                        # an endless group that is NOT instrumented went in: nothing may search it in vain
     for _ in range(rng.randrange(1, 5)):
+        if lazy and shape == "int" and rng.random() < 0.5:
+            g = gen_group(rng)
+            stages.append(("selectManyG", g))
+            lazy, free = False, g in (("seq",), ("repeat", None))
+            continue
         sg, kind, shape, n = sc.gen_stage(rng, kind, shape, n, allow_terminal=False, streaming_only=True)
-        if sc.memo_clash(stages, sg):
+        if sc.memo_clash(stages, sg) or (free and sg[0] not in PASS_THROUGH):
             continue
         stages.append(sg)
+    if free:
+        return k0, stages, rng.randrange(0, 9)
     if rng.random() < 0.15:
         t = rng.choice(["first", "any", "all", "indexOf", "indexWhere", "contains"])
         if t == "first":
@@ -326,8 +483,10 @@ def load_corpus():
 
 
 def describe(k0, stages, k, o, pulls, ticks, text, mode="data-iter"):
-    root, shape, where, conv = MODES[mode]
-    return {"yaql": text, "source": "instrumented endless %s %d, %d, ... handed over as %s (%s), yaql.convertInputData=%s" % (
+    base, splits = split_mode(mode)
+    root, shape, where, conv = MODES[base]
+    return {"yaql": text, "split": "; ".join("%s after %d stage(s)" % s for s in splits) or "single dotted chain",
+            "source": "instrumented endless %s %d, %d, ... handed over as %s (%s), yaql.convertInputData=%s" % (
                 "one-shot iterator" if shape == "iter" else "RE-ITERABLE lazy object (no __next__; __iter__ starts a fresh generator)",
                 k0, k0 + 1, root, {"data": "the query data", "doc": "a member of the data document", "var": "a context variable",
                                    "fn": "the result of a registered host function"}[where], conv),
@@ -350,7 +509,8 @@ SCOPE = {"select": "select", "where": "where", "selectMany": "selectMany", "skip
          "first": "first", "any": "any", "all": "all", "indexOf": "indexOf", "indexWhere": "indexWhere", "join": "join",
          "contains": "contains", "#operator_+": "plus", "defaultIfEmpty (memorizes its source)": "defaultIfEmpty",
          "assert (memorizes its source)": "assertAny", "#operator_. (member projection over a collection)": "attr",
-         "limit": "take", "filter": "where", "map": "select"}
+         "limit": "take", "filter": "where", "map": "select",
+         "selectMany (selector returning a lazy group)": "selectManyG", "let / with / def / lambda (binding a lazy value)": "select"}
 
 
 def correspondence(run):
@@ -363,9 +523,20 @@ def correspondence(run):
         len(SCOPE), len([k for k in SCOPE.values() if k]), ", ".join(unc) or "-"), flush=True)
     todo = list(load_corpus()) + delivery_grid(run)
     for j, (k0, stages, k) in enumerate(grid(run)):
-        todo.append((k0, stages, k, MODE_NAMES[j % len(MODE_NAMES)]))
+        mode = MODE_NAMES[j % len(MODE_NAMES)]
+        todo.append((k0, stages, k, mode))
+        if j % 3 == 0:          # the same case once more, the chain split by a binding form after each possible prefix
+            top = len(stages) - (1 if k is None else 0)
+            todo.append((k0, stages, k, join_mode(mode, ((SPLIT_FORMS[(j // 3) % len(SPLIT_FORMS)], (j // 3) % (top + 1)),))))
+    for j, (k0, stages, k) in enumerate(lazy_grid()):
+        mode = MODE_NAMES[j % len(MODE_NAMES)]
+        todo.append((k0, stages, k, mode if j % 4 else join_mode(mode, ((SPLIT_FORMS[j % len(SPLIT_FORMS)], j % 2),))))
     for _ in range(run.n(2500, 40000)):
-        todo.append(gen_case(run.rng) + (run.rng.choice(MODE_NAMES),))
+        k0, stages, k = gen_case(run.rng)
+        mode = run.rng.choice(MODE_NAMES)
+        if run.rng.random() < 0.4:
+            mode = join_mode(mode, gen_splits(run.rng, len(stages), k is None))
+        todo.append((k0, stages, k, mode))
     cases, meta = [], []
     nfixed = len(todo) - run.n(2500, 40000)
     for j, (k0, stages, k, mode) in enumerate(todo):
@@ -375,7 +546,10 @@ def correspondence(run):
             run.count("dropped:most pipelines that never produce k results (cap) are not kept")
             continue
         run.case((k0, sc.stages_json(stages), k, mode), nontrivial=bool(stages) and (k is None or k > 0))
-        run.count("delivery:" + mode)
+        run.count("delivery:" + split_mode(mode)[0])
+        for f, _ in split_mode(mode)[1]:
+            run.count("split:" + f)
+        run.count("split forms in the chain:%d" % len(split_mode(mode)[1]))
         run.count("stages:%d" % len(stages))
         run.count("k:%s" % k)
         for s in stages:
@@ -473,7 +647,10 @@ def oracle(run, deep):
     if deep:
         for _ in range(run.n(1500, 10000)):
             k0, stages, k = gen_case(run.rng)
-            mode = fix_mode(stages, run.rng.choice(MODE_NAMES))
+            mode = run.rng.choice(MODE_NAMES)
+            if run.rng.random() < 0.4:
+                mode = join_mode(mode, gen_splits(run.rng, len(stages), k is None))
+            mode = fix_mode(stages, mode)
             o, pulls, ticks, per, text = observe(k0, stages, k, mode)
             extra.append((k0, stages, k, o, pulls, ticks, per, text, mode))
     checked = 0
